@@ -6,13 +6,17 @@
    Pull.pull_value / Pull.pull_collection applied to its snapshot and the events delivered since.
    Set and Update publish in a step of their own AFTER the lock is released (their thread is
    "pending" in between); Delete publishes inside the step that removes the item.
-   The ghost st_overlap records whether some commit (save or delete) happened while another
-   thread's publication on the same resource was pending.
 
-   Proved for every message algebra, program and schedule: WITHOUT such an overlap the view
-   converges (so: one writer at a time with subscriptions opened anywhere, and any number of
-   concurrent Deletes).  Refuted with two overlapping writers (C03_multi_writer_refuted): that is
-   known finding C03/1 — publication is not ordered with commits. *)
+   Publication is TICKETED (the repair of known finding C03/1, pkg/resource/turnstile.go): every
+   commit takes the next number of its resource under the write lock and its publication passes a
+   turnstile in the order of the numbers.  In the model a publish step is enabled only when every
+   earlier commit has left, and a committing Delete step only when no earlier commit is pending
+   (in the code it waits under the lock; see the head of Conc/Lts.v).
+
+   Proved for every message algebra, program and schedule, ANY number of overlapping writers:
+   publications leave in commit order, every subscriber is delivered exactly the commits after
+   its starting point, the folded view converges, the ticket discipline cannot deadlock.
+   The code before the repair (v1 = true) is kept and refuted (C03_multi_writer_v1_refuted). *)
 From SC Require Import Base.Prelude Resource.Impl Resource.Spec Resource.Pull Resource.ImplProofs Resource.PullProofs
   Resource.Flat Resource.FlatProofs Resource.Judge Excess.Change Excess.MergeExcess
   Conc.Lts Conc.LtsProofs Conc.SubProofs Conc.FlatInst Conc.Judge Conc.Lossy Conc.LossyPipe Conc.LossyProofs.
@@ -40,26 +44,67 @@ Section C03.
   Variable c0 : cstate M.
   Hypothesis c0_sorted : sorted str_ltb (c_items c0).
 
-  Notation run := (run m_eqb m_empty w_validate w_merge clock_at str_ltb idfun false prog).
+  Notation run := (run m_eqb m_empty w_validate w_merge clock_at str_ltb idfun false false prog).
+  Notation step := (step m_eqb m_empty w_validate w_merge clock_at str_ltb idfun false false prog).
+  Notation enabled := (enabled m_eqb m_empty w_validate w_merge clock_at str_ltb idfun false false prog).
   Notation s0 := (s0 prog v0 c0).
   Notation cview := (cview r_filter).
   Notation vstream := (vstream r_filter).
 
-  (* Collection.Pull, seeded, with any read mask and any include predicate, subscription opened at
-     any schedule position: once every call has returned, the folded view is List with the same
-     mask and predicate — nothing missed, nothing duplicated into a wrong state *)
-  Theorem C03_collection_converges_without_overlap : forall sched u,
+  (* Publications leave in commit order, in every reachable state of every program under every
+     schedule.  Commit n of a resource is entry n-1 of its log (st_logv / st_logc, ghost); st_left* is
+     the number of the last commit that has left the turnstile, st_cnt* the commit counter.  What a
+     subscriber has been delivered is EXACTLY the commits numbered from+1 .. left in that order
+     (seq is increasing): no event overtakes an earlier commit, none is missing, none comes twice.
+     `from` is the last commit that had left when the subscription was registered (vs_left /
+     cs_left); for a seeded Collection subscription it is the commit counter read with the snapshot
+     (cs_cnt, the code's `seeded`), and the commits in between -- pending at that moment, shown by
+     the snapshot -- are its skip set (last clause).  Hence every commit <= left has been delivered
+     to every subscriber registered before its publication and not skipping it. *)
+  Theorem C03_publications_in_commit_order : forall sched,
     let s := run sched s0 in
-    st_overlap s = false -> all_done s = true -> In u (st_csubs s) -> plain_sub u ->
+    (st_leftv s <= st_cntv s)%nat /\ List.length (st_logv s) = st_cntv s /\
+    (st_leftc s <= st_cntc s)%nat /\ List.length (st_logc s) = st_cntc s /\
+    (forall u, In u (st_vsubs s) ->
+       (vs_left u <= st_leftv s)%nat /\
+       map Some (vs_evs u) = map (fun n => nth_error (st_logv s) (n - 1)) (seq (S (vs_left u)) (st_leftv s - vs_left u))) /\
+    (forall u, In u (st_csubs s) ->
+       (cs_left u <= cs_cnt u <= st_cntc s)%nat /\ (cs_left u <= st_leftc s)%nat /\
+       map Some (cs_evs u) = map (fun n => nth_error (st_logc s) (n - 1)) (seq (S (from_c u)) (st_leftc s - from_c u)) /\
+       (ro_updates_only (cs_ro u) = false ->
+        forall a, In a (st_pendc s) -> (In a (cs_skip u) <-> (st_tkt s a <= cs_cnt u)%nat))).
+  Proof. apply publications_in_commit_order; assumption. Qed.
+
+  (* the ghost that recorded "a publication overtook an earlier commit" (the class of the former
+     known finding) is never set *)
+  Theorem C03_no_publication_overtakes_a_commit : forall sched, st_reordered (run sched s0) = false.
+  Proof. apply never_reordered; assumption. Qed.
+
+  (* at EVERY moment a seeded subscriber's folded view is List (same mask and predicate) of the
+     contents as of the last commit delivered to it, and the commits still to be delivered lead
+     from there to the current contents *)
+  Theorem C03_view_is_list_as_of_last_delivered : forall sched u,
+    let s := run sched s0 in
+    In u (st_csubs s) -> plain_sub u ->
+    exists L, view_inv r_filter (cs_ro u) (cview u) L /\
+              chain L (skipn (List.length (cs_evs u)) (skipn (cs_cnt u) (st_logc s))) (c_items (w_c (st_w s))).
+  Proof. apply view_tracks_delivered; assumption. Qed.
+
+  (* Collection.Pull, seeded, with any read mask and any include predicate, subscription opened at
+     any schedule position, ANY number of concurrent writers: once every call has returned, the
+     folded view is List with the same mask and predicate *)
+  Theorem C03_collection_converges : forall sched u,
+    let s := run sched s0 in
+    all_done s = true -> In u (st_csubs s) -> plain_sub u ->
     forall id, vlookup id (cview u) =
                vlookup id (c_list r_filter (w_c (st_w s)) (ro_mask (cs_ro u)) (ro_include (cs_ro u))).
   Proof. apply converges_collection; assumption. Qed.
 
   (* Collection.Pull with updates-only (no seed, any read mask, no include predicate): the folded
      view agrees with List at every id that any delivered event mentioned *)
-  Theorem C03_collection_updates_only_converges_without_overlap : forall sched u,
+  Theorem C03_collection_updates_only_converges : forall sched u,
     let s := run sched s0 in
-    st_overlap s = false -> all_done s = true -> In u (st_csubs s) -> uo_sub u ->
+    all_done s = true -> In u (st_csubs s) -> uo_sub u ->
     forall id, touched u id ->
                vlookup id (cview u) = vlookup id (c_list r_filter (w_c (st_w s)) (ro_mask (cs_ro u)) None).
   Proof. apply converges_collection_updates_only; assumption. Qed.
@@ -68,75 +113,162 @@ Section C03.
      schedule position): unless the subscription has ended — which happens exactly when a change
      removes the item (Props/C04.v: C04_pull_id_closed_iff_removed) — the last value delivered is
      the item's value in List, and nothing is delivered for an item that is absent *)
-  Theorem C03_pull_id_converges_without_overlap : forall sched u id vs,
+  Theorem C03_pull_id_converges : forall sched u id vs,
     let s := run sched s0 in
-    st_overlap s = false -> all_done s = true -> In u (st_csubs s) -> plain_sub u ->
+    all_done s = true -> In u (st_csubs s) -> plain_sub u ->
     pull_id_from id (cstream r_filter u) = (vs, false) ->
     last_value vs = vlookup id (c_list r_filter (w_c (st_w s)) (ro_mask (cs_ro u)) (ro_include (cs_ro u))).
   Proof. apply converges_pull_id; assumption. Qed.
 
   (* Value.Pull with any read mask and updates-only setting: the last event delivered is the final
      value (for updates-only: provided anything was delivered) *)
-  Theorem C03_value_converges_without_overlap : forall sched u,
+  Theorem C03_value_converges : forall sched u,
     let s := run sched s0 in
-    st_overlap s = false -> all_done s = true -> In u (st_vsubs s) ->
+    all_done s = true -> In u (st_vsubs s) ->
     (ro_updates_only (vs_ro u) = false \/ vs_evs u <> []) ->
     last_value (vstream u) = option_map (filt r_filter (vs_ro u)) (v_val (w_v (st_w s))).
   Proof. apply converges_value; assumption. Qed.
 
+  (* what a seeded subscription was delivered is a chain of events, each describing one transition,
+     from its snapshot to the final contents: the hypothesis of
+     C03_lossy_any_pace_received_plus_pending below, now derived from the transition system *)
+  Theorem C03_deliveries_lead_from_snapshot_to_contents : forall sched u,
+    let s := run sched s0 in
+    all_done s = true -> In u (st_csubs s) -> plain_sub u ->
+    chain (c_items (cs_at u)) (cs_evs u) (c_items (w_c (st_w s))).
+  Proof. apply deliveries_chain_done; assumption. Qed.
+
+  (* ---- the earlier theorems, guarded by "no commit overlapped an unpublished one": corollaries ---- *)
+  Corollary C03_collection_converges_without_overlap : forall sched u,
+    let s := run sched s0 in
+    st_overlap s = false -> all_done s = true -> In u (st_csubs s) -> plain_sub u ->
+    forall id, vlookup id (cview u) =
+               vlookup id (c_list r_filter (w_c (st_w s)) (ro_mask (cs_ro u)) (ro_include (cs_ro u))).
+  Proof. intros sched u s _. apply C03_collection_converges. Qed.
+
+  Corollary C03_collection_updates_only_converges_without_overlap : forall sched u,
+    let s := run sched s0 in
+    st_overlap s = false -> all_done s = true -> In u (st_csubs s) -> uo_sub u ->
+    forall id, touched u id ->
+               vlookup id (cview u) = vlookup id (c_list r_filter (w_c (st_w s)) (ro_mask (cs_ro u)) None).
+  Proof. intros sched u s _. apply C03_collection_updates_only_converges. Qed.
+
+  Corollary C03_pull_id_converges_without_overlap : forall sched u id vs,
+    let s := run sched s0 in
+    st_overlap s = false -> all_done s = true -> In u (st_csubs s) -> plain_sub u ->
+    pull_id_from id (cstream r_filter u) = (vs, false) ->
+    last_value vs = vlookup id (c_list r_filter (w_c (st_w s)) (ro_mask (cs_ro u)) (ro_include (cs_ro u))).
+  Proof. intros sched u id vs s _. apply C03_pull_id_converges. Qed.
+
+  Corollary C03_value_converges_without_overlap : forall sched u,
+    let s := run sched s0 in
+    st_overlap s = false -> all_done s = true -> In u (st_vsubs s) ->
+    (ro_updates_only (vs_ro u) = false \/ vs_evs u <> []) ->
+    last_value (vstream u) = option_map (filt r_filter (vs_ro u)) (v_val (w_v (st_w s))).
+  Proof. intros sched u s _. apply C03_value_converges. Qed.
+
+  (* ---- the ticket discipline cannot deadlock ---- *)
+  (* In every reachable state: the publication at the head of either turnstile's queue is enabled
+     (a Delete waiting for it -- in the code under the write lock, in the model disabled -- cannot
+     keep it back: a publication needs no lock), and while some call has not returned some step is
+     enabled.  Consumers keep receiving (a publication is one step).  An enabled step is not a
+     stutter; a disabled one changes nothing but the schedule counters. *)
+  Theorem C03_ticket_discipline_is_deadlock_free : forall sched,
+    let s := run sched s0 in
+    (forall t rest, st_pendv s = t :: rest -> enabled t s = true) /\
+    (forall t rest, st_pendc s = t :: rest -> enabled t s = true) /\
+    (all_done s = false -> exists t, enabled t s = true) /\
+    (forall t, (enabled t s = true -> st_stutter (step t s) = st_stutter s) /\
+               (enabled t s = false -> step t s = stutter s)).
+  Proof.
+    intros sched s.
+    destruct (@ticket_progress _ m_eqb m_empty _ w_validate w_merge _ r_filter clock_at str_ltb idfun
+                m_eqb_eq ltb_irrefl ltb_trans ltb_total prog prog_ok v0 c0 c0_sorted sched) as (A & B & C).
+    split; [exact A|]. split; [exact B|]. split; [exact C|].
+    intros t. apply enabled_step.
+  Qed.
+
   (* ONE writer at a time (a single writer issuing its calls one after the other; every other
      writing thread has not started or has returned whenever a thread steps), subscribers stepping
-     anywhere: commits never overlap, for every schedule.
-     _partial: together with the two theorems above this is the single-writer clause of C03; not
-     covered by the theorems (covered by the correspondence oracle only): Collection subscribers
-     with updates-only or include, PullID, a configured equivalence. *)
-  Theorem C03_single_writer_converges_partial : forall sched,
+     anywhere.  What remains of the former single-writer theorem (convergence no longer needs it):
+     commits never overlap, and the turnstile never makes anyone wait -- every step of a call that
+     has not returned is enabled when the schedule names it. *)
+  Theorem C03_single_writer_never_overlaps_never_waits : forall sched,
     one_writer_at_a_time m_eqb m_empty w_validate w_merge clock_at str_ltb idfun prog v0 c0 sched ->
-    st_overlap (run sched s0) = false.
-  Proof. apply one_writer_no_overlap; assumption. Qed.
+    st_overlap (run sched s0) = false /\
+    forall k t p, nth_error sched k = Some t ->
+                  nth_error (st_pcs (run (firstn k sched) s0)) t = Some p -> is_done p = false ->
+                  enabled t (run (firstn k sched) s0) = true.
+  Proof.
+    intros sched H. split; [apply one_writer_no_overlap; assumption|].
+    intros k t p N Q D. eapply one_writer_never_waits; eassumption.
+  Qed.
 
-  (* any number of concurrent Deletes converge: they publish under the lock *)
-  Theorem C03_concurrent_deletes_converge : forall sched,
+  (* any number of concurrent Deletes never overlap: they publish under the lock *)
+  Theorem C03_concurrent_deletes_never_overlap : forall sched,
     only_deletes_write prog -> st_overlap (run sched s0) = false.
   Proof. apply deletes_no_overlap; assumption. Qed.
 End C03.
 
+Print Assumptions C03_publications_in_commit_order.
+Print Assumptions C03_no_publication_overtakes_a_commit.
+Print Assumptions C03_view_is_list_as_of_last_delivered.
+Print Assumptions C03_collection_converges.
+Print Assumptions C03_value_converges.
+Print Assumptions C03_pull_id_converges.
+Print Assumptions C03_collection_updates_only_converges.
+Print Assumptions C03_deliveries_lead_from_snapshot_to_contents.
 Print Assumptions C03_collection_converges_without_overlap.
 Print Assumptions C03_value_converges_without_overlap.
 Print Assumptions C03_pull_id_converges_without_overlap.
 Print Assumptions C03_collection_updates_only_converges_without_overlap.
-Print Assumptions C03_single_writer_converges_partial.
-Print Assumptions C03_concurrent_deletes_converge.
+Print Assumptions C03_ticket_discipline_is_deadlock_free.
+Print Assumptions C03_single_writer_never_overlaps_never_waits.
+Print Assumptions C03_concurrent_deletes_never_overlap.
 
-(* ---------- two overlapping writers: refuted on the faithful model ---------- *)
+(* ---------- the code before the turnstile (v1): two overlapping writers, refuted ---------- *)
 Definition plain_wo := mkFWO None None None None false None false None false None None false false false false.
 Definition two_sets : list fcall :=
   [FSet (mkF 1 0 0) plain_wo; FSet (mkF 2 0 0) plain_wo; FSubV (mkFRO None false None)].
+Definition reordered_case :=
+  CaseSched None None [] two_sets [2; 0; 0; 1; 1; 1; 0]%nat
+            [mkFO (Some (mkF 1 0 0)) 0; mkFO (Some (mkF 2 0 0)) 0; mkFO None 0] (Some (mkF 2 0 0)) []
+            [(2%nat, [mkOV (mkF 2 0 0) 1020 false false; mkOV (mkF 1 0 0) 1010 false false])] [] [].
 
-(* [sub; W0.read; W0.save; W1.read; W1.save; W1.publish; W0.publish]: the subscriber's last event
-   is W0's value while Get returns W1's; the view stays stale for ever *)
-Theorem C03_multi_writer_refuted :
-  let s := f_run false None two_sets [2; 0; 0; 1; 1; 1; 0]%nat None [] in
-  all_done s = true /\ st_overlap s = true /\ st_reordered s = true /\
+(* pinned behaviour before the fix.  [sub; W0.read; W0.save; W1.read; W1.save; W1.publish; W0.publish]:
+   the subscriber's last event is W0's value while Get returns W1's; the view stays stale for ever *)
+Theorem C03_multi_writer_v1_refuted :
+  let s := f_run_v1 None two_sets [2; 0; 0; 1; 1; 1; 0]%nat None [] in
+  all_done s = true /\ st_stutter s = 0%nat /\ st_overlap s = true /\ st_reordered s = true /\
   v_val (w_v (st_w s)) = Some (mkF 2 0 0) /\
   map (fun u => last_value (vstream fr_filter u)) (st_vsubs s) = [Some (mkF 1 0 0)] /\
-  C03_ok (CaseSched None None [] two_sets [2; 0; 0; 1; 1; 1; 0]%nat
-            [mkFO (Some (mkF 1 0 0)) 0; mkFO (Some (mkF 2 0 0)) 0; mkFO None 0] (Some (mkF 2 0 0)) []
-            [(2%nat, [mkOV (mkF 2 0 0) 1020 false false; mkOV (mkF 1 0 0) 1010 false false])] [] []) = false.
+  C03_ok reordered_case = false.
 Proof. vm_compute. repeat split; reflexivity. Qed.
-Print Assumptions C03_multi_writer_refuted.
+Print Assumptions C03_multi_writer_v1_refuted.
 
-(* the same for a collection: an Update saved, a Delete committing and publishing before the
-   Update's publication: the view shows the item, List does not *)
+(* with the turnstile that sequence is not a schedule: W1's publish (position 5) is disabled while
+   W0's commit has not left, so the model does not follow it (one stutter) and W1 never publishes;
+   an implementation observed to behave like `reordered_case` is judged a hard violation (3: it
+   disagrees with the model AND the view is stale) -- no known-finding class any more *)
+Example C03_reordered_observation_is_a_violation :
+  let s := f_run false None two_sets [2; 0; 0; 1; 1; 1; 0]%nat None [] in
+  st_stutter s = 1%nat /\ all_done s = false /\ st_reordered s = false /\
+  f_enabled None two_sets 1 (f_run false None two_sets [2; 0; 0; 1; 1]%nat None []) = false /\
+  f_enabled None two_sets 0 (f_run false None two_sets [2; 0; 0; 1; 1]%nat None []) = true /\
+  judge03 reordered_case = 3.
+Proof. vm_compute. repeat split; reflexivity. Qed.
+
+(* the same for a collection, before the fix: an Update saved, a Delete committing and publishing
+   before the Update's publication: the view shows the item, List does not *)
 Definition upd_del : list fcall :=
   [FUpdate "a" (mkF 7 0 0) plain_wo; FDelete "a" plain_wo; FSubC (mkFRO None false None)].
-Theorem C03_update_delete_refuted :
-  let s := f_run false None upd_del [2; 0; 0; 1; 1; 0]%nat None [("a"%string, mkF 1 0 0, 300)] in
-  all_done s = true /\ st_overlap s = true /\
+Theorem C03_update_delete_v1_refuted :
+  let s := f_run_v1 None upd_del [2; 0; 0; 1; 1; 0]%nat None [("a"%string, mkF 1 0 0, 300)] in
+  all_done s = true /\ st_stutter s = 0%nat /\ st_overlap s = true /\
   final_list (w_c (st_w s)) = [] /\
   map (fun u => cview fr_filter u) (st_csubs s) = [[("a"%string, mkF 7 0 0)]].
 Proof. vm_compute. repeat split; reflexivity. Qed.
-Print Assumptions C03_update_delete_refuted.
+Print Assumptions C03_update_delete_v1_refuted.
 
 (* ---------- the pinned commit: a subscription receives again what its seed already shows ---------- *)
 Definition add_del : list fcall := [FAdd "a" (mkF 10 0 0) plain_wo; FDelete "a" plain_wo; FSubC (mkFRO None false None)].
@@ -249,9 +381,9 @@ Qed.
    above about `run` holds under every reader pace. *)
 Theorem C03_lossy_reader_pace_is_invisible_to_writers :
   forall (M rmask : Type) (r_filter : rmask -> M -> M) equiv id_tok id_of val_tok val_of (writer : Type)
-         m_eqb m_empty (w_validate : writer -> option Z) w_merge clock_at str_ltb idfun v0 prog lossy_of sched st,
-    fst (lrun r_filter equiv id_tok id_of val_tok val_of m_eqb m_empty w_validate w_merge clock_at str_ltb idfun v0 prog lossy_of sched st) =
-    run m_eqb m_empty w_validate w_merge clock_at str_ltb idfun v0 prog (threads_of sched) (fst st).
+         m_eqb m_empty (w_validate : writer -> option Z) w_merge clock_at str_ltb idfun v0 v1 prog lossy_of sched st,
+    fst (lrun r_filter equiv id_tok id_of val_tok val_of m_eqb m_empty w_validate w_merge clock_at str_ltb idfun v0 v1 prog lossy_of sched st) =
+    run m_eqb m_empty w_validate w_merge clock_at str_ltb idfun v0 v1 prog (threads_of sched) (fst st).
 Proof. intros. apply lrun_projects. Qed.
 Print Assumptions C03_lossy_reader_pace_is_invisible_to_writers.
 
@@ -295,16 +427,67 @@ Example C03_lossy_pull_id_forwards_replace :
       ("a"%string, 4, Some (mkF 1 0 0), Some (mkF 7 0 0))], [mkF 1 0 0; mkF 7 0 0], false)]).
 Proof. vm_compute. reflexivity. Qed.
 
-(* ---------- non-vacuity ---------- *)
+(* ---------- non-vacuity: overlapping writers under the turnstile ---------- *)
 (* one writer, subscription opened between its save and its publication: the seed already shows
-   the new value, the publication is not delivered a second time, nothing overlaps *)
+   the new value, the publication is not delivered a second time *)
 Example C03_nonvacuous_single_writer :
   let s := f_run false None [FUpdate "a" (mkF 7 0 0) plain_wo; FSubC (mkFRO (Some [Fa]) false None)]
                  [0; 0; 1; 0]%nat None [("a"%string, mkF 1 5 0, 300)] in
-  all_done s = true /\ st_overlap s = false /\
+  all_done s = true /\ st_stutter s = 0%nat /\ st_overlap s = false /\
   map (fun u => List.length (cstream fr_filter u)) (st_csubs s) = [1%nat] /\
   map (fun u => cview fr_filter u) (st_csubs s) = [[("a"%string, mkF 7 0 0)]] /\
   c_list fr_filter (w_c (st_w s)) (Some [Fa]) None = [("a"%string, mkF 7 0 0)].
+Proof. vm_compute. repeat split; reflexivity. Qed.
+
+(* TWO overlapping Sets: both have saved before either publishes (st_overlap); the publications
+   leave in commit order (the other order is not a schedule, see above), the last event is the
+   final value *)
+Example C03_nonvacuous_two_overlapping_writers :
+  let s := f_run false None two_sets [2; 0; 0; 1; 1; 0; 1]%nat None [] in
+  all_done s = true /\ st_stutter s = 0%nat /\ st_overlap s = true /\ st_reordered s = false /\
+  v_val (w_v (st_w s)) = Some (mkF 2 0 0) /\
+  map (fun u => map (@ve_value fmsg) (vs_evs u)) (st_vsubs s) = [[mkF 1 0 0; mkF 2 0 0]] /\
+  map (fun u => last_value (vstream fr_filter u)) (st_vsubs s) = [Some (mkF 2 0 0)].
+Proof. vm_compute. repeat split; reflexivity. Qed.
+
+(* THREE overlapping Updates of one collection (two items), a seeded subscriber registered while
+   commits 1 and 2 are pending (its skip set) and one registered first: all three have saved
+   before any publishes; commit 3's publication is not enabled while 1 or 2 is pending *)
+Definition three_updates : list fcall :=
+  [FUpdate "a" (mkF 7 0 0) plain_wo; FUpdate "b" (mkF 8 0 0) plain_wo; FUpdate "a" (mkF 9 0 0) plain_wo;
+   FSubC (mkFRO None false None); FSubC (mkFRO None false None)].
+Definition ab_items := [("a"%string, mkF 1 0 0, 300); ("b"%string, mkF 2 2 0, 310)].
+Example C03_nonvacuous_three_overlapping_writers :
+  let mid := f_run false None three_updates [3; 0; 0; 1; 1; 4; 2; 2]%nat None ab_items in
+  let s := f_run false None three_updates [3; 0; 0; 1; 1; 4; 2; 2; 0; 1; 2]%nat None ab_items in
+  map (fun t => f_enabled None three_updates t mid) [0; 1; 2]%nat = [true; false; false] /\
+  st_pendc mid = [0; 1; 2]%nat /\ map (st_tkt mid) [0; 1; 2]%nat = [1; 2; 3]%nat /\ st_leftc mid = 0%nat /\
+  all_done s = true /\ st_stutter s = 0%nat /\ st_overlap s = true /\
+  map (fun u => (cs_left u, cs_cnt u, cs_skip u, map (fun e => (ce_id e, ce_new e)) (cs_evs u))) (st_csubs s) =
+    [(0, 0, [], [("a"%string, Some (mkF 7 0 0)); ("b"%string, Some (mkF 8 0 0)); ("a"%string, Some (mkF 9 0 0))]);
+     (0, 2, [0; 1], [("a"%string, Some (mkF 9 0 0))])]%nat /\
+  map (fun u => cview fr_filter u) (st_csubs s) =
+    [[("a"%string, mkF 9 0 0); ("b"%string, mkF 8 0 0)]; [("a"%string, mkF 9 0 0); ("b"%string, mkF 8 0 0)]] /\
+  final_list (w_c (st_w s)) = [("a"%string, mkF 9 0 0); ("b"%string, mkF 8 0 0)].
+Proof. vm_compute. repeat split; reflexivity. Qed.
+
+(* a Delete between two Updates: Update a saved (commit 1, pending), Delete b has read, Update a
+   saved again (commit 2, pending).  The Delete's committing step is NOT enabled while a commit is
+   pending (in the code it would wait under the lock); the two publications are (in order); then the
+   Delete commits as number 3 and publishes.  Before the fix the Delete could publish first and
+   the view ended with b (C03_update_delete_v1_refuted is the one-item version). *)
+Definition upd_del_upd : list fcall :=
+  [FUpdate "a" (mkF 7 0 0) plain_wo; FDelete "b" plain_wo; FUpdate "a" (mkF 9 0 0) plain_wo; FSubC (mkFRO None false None)].
+Example C03_nonvacuous_delete_between_updates :
+  let mid := f_run false None upd_del_upd [3; 0; 0; 1; 2; 2]%nat None ab_items in
+  let s := f_run false None upd_del_upd [3; 0; 0; 1; 2; 2; 0; 2; 1]%nat None ab_items in
+  map (fun t => f_enabled None upd_del_upd t mid) [0; 1; 2]%nat = [true; false; false] /\
+  st_stutter (f_run false None upd_del_upd [3; 0; 0; 1; 2; 2; 1]%nat None ab_items) = 1%nat /\
+  all_done s = true /\ st_stutter s = 0%nat /\ st_overlap s = true /\ st_cntc s = 3%nat /\ st_leftc s = 3%nat /\
+  map (fun u => map (fun e => (ce_id e, kind_code (ce_kind e))) (cs_evs u)) (st_csubs s) =
+    [[("a"%string, 2); ("a"%string, 2); ("b"%string, 3)]] /\
+  map (fun u => cview fr_filter u) (st_csubs s) = [[("a"%string, mkF 9 0 0)]] /\
+  final_list (w_c (st_w s)) = [("a"%string, mkF 9 0 0)].
 Proof. vm_compute. repeat split; reflexivity. Qed.
 
 (* a writer and a subscriber satisfy the one-writer-at-a-time hypothesis under every schedule *)
